@@ -1,7 +1,7 @@
 """C03 — passive emission models radiate exactly their documented totals."""
 import z3
 from .common import call_cases, lemma, as_bool
-from pyvc.values import to_real
+from pyvc.values import to_real, Obj
 
 PROP = 'C03'
 LEVEL = 'proof'
@@ -216,12 +216,70 @@ def register_more(reg):
                  ("integrand_densities", "implies(ne() > 0 and te() > 0, %s)" % DENS_OK)])
 
 
+def _np_array_1d(eng, st, fr, recv, args, kwargs):
+    """numpy.array(seq, dtype=float64) of a 1-D Python sequence: a NEW 1-D float64 array of the same length with the same elements."""
+    src = args[0]
+    if isinstance(src, (list, tuple)):
+        o = eng.new_obj(st, 'ndarray', 'arr', 'real', 1, name='nparray')
+        st.heap['$len'] = z3.Store(eng.field(st, '$len'), o.ref, z3.IntVal(len(src)))
+        for k, x in enumerate(src):
+            eng.arr_write(st, o, [k], to_real(x))
+        return o
+    if not (isinstance(src, Obj) and src.kind in ('seq', 'arr') and src.ndim == 1):
+        from pyvc.values import Unsupported
+        raise Unsupported('numpy.array of %r' % (src,))
+    o = eng.new_obj(st, 'ndarray', 'arr', 'real', 1, name='nparray')
+    st.heap['$len'] = z3.Store(eng.field(st, '$len'), o.ref, z3.Select(eng.field(st, '$len'), src.ref))
+    i = z3.Int('i!npa')
+    sfid = eng.arr_fid(src)
+    row = z3.Select(z3.Select(eng.field(st, sfid), src.ref), i)
+    if row.sort().kind() == z3.Z3_INT_SORT:
+        row = z3.ToReal(row)
+    st.heap['$d1:real'] = z3.Store(eng.field(st, '$d1:real'), o.ref, z3.Lambda([i], row))
+    return o
+
+
+def _np_zeros_like_1d(eng, st, fr, recv, args, kwargs):
+    src = args[0]
+    o = eng.new_obj(st, 'ndarray', 'arr', 'real', 1, name='zeros')
+    st.heap['$len'] = z3.Store(eng.field(st, '$len'), o.ref, z3.Select(eng.field(st, '$len'), src.ref))
+    st.heap['$d1:real'] = z3.Store(eng.field(st, '$d1:real'), o.ref, z3.K(z3.IntSort(), z3.RealVal(0)))
+    return o
+
+
+def register_brems_cache(reg):
+    """Bremsstrahlung._populate_cache: the cached charge array lists the charges of exactly the species emission() collects densities for
+    (charge > 0), in composition order - slot cnt(j) of both arrays belongs to species j - so every density meets its own Z^2 and Gaunt
+    factor in BremsFunction.evaluate; both arrays have one slot per charged species."""
+    B = "cherab/core/model/plasma/bremsstrahlung.pyx"
+    reg.contract(B, "Bremsstrahlung._populate_cache", PROP, name='charges', sorts={"species_charge": "seq:int"},
+        ghost={"comp()": "as_seq(self._plasma.get_composition())", "nsp()": "length(comp())", "sp(j)": "typed(comp()[j], 'Species')",
+               "Z(m)": "self._brems_func.species_charge_mv[m]"},
+        consts={"cnt": "fn:int->int"},
+        axioms=["cnt(0) == 0", "forall(j, j >= 0, cnt(j + 1) == cnt(j) + ite(sp(j).charge > 0, 1, 0))"],
+        requires=["not is_none(self._brems_func)"],
+        externals={'Composition.__iter__': {'kind': 'pure', 'result': 'seq:ref', 'doc': 'iteration order of the composition'},
+                   'array': {'kind': 'custom', 'fn': _np_array_1d, 'doc': 'numpy.array(seq, dtype=float64): new 1-D array, same elements'},
+                   'zeros_like': {'kind': 'custom', 'fn': _np_zeros_like_1d, 'doc': 'numpy.zeros_like(a): new array of the same length'},
+                   '.free_free_gaunt_factor': {'kind': 'fresh', 'result': 'ref:FreeFreeGauntFactor', 'doc': 'atomic data provider'}},
+        loops={0: dict(index='k', invariant=["0 <= k", "length(species_charge) == cnt(k)", "forall(j, 0 <= j and j <= k, 0 <= cnt(j) and cnt(j) <= cnt(k))",
+                                             "forall(j, 0 <= j and j < k and sp(j).charge > 0, species_charge[cnt(j)] == sp(j).charge)"])},
+        raises_any=["RuntimeError"],
+        ensures=[("one_slot_per_charged_species", "length(self._brems_func.species_charge_mv) == cnt(nsp()) and "
+                  "length(self._brems_func.species_density_mv) == cnt(nsp())"),
+                 ("charge_aligned_with_density_slot", "forall(j, 0 <= j and j < nsp() and sp(j).charge > 0, Z(cnt(j)) == sp(j).charge)"),
+                 ("views_of_the_arrays", "same(self._brems_func.species_charge_mv, self._brems_func.species_charge) and "
+                  "same(self._brems_func.species_density_mv, self._brems_func.species_density)")])
+
+
+_register0 = register
 _register0 = register
 
 
 def register(reg):
     _register0(reg)
     register_more(reg)
+    register_brems_cache(reg)
 
 
 def _constants(ctx, eng):
@@ -245,9 +303,47 @@ def _constants(ctx, eng):
 GENERATORS = [_constants]
 
 
+def brems_order_replay(ctx, o):
+    """Neutrals radiate no bremsstrahlung and the sum over ions does not depend on the order of the composition: the real model is evaluated
+    for every ordering of {D0, D+, He0, N7+} and compared with the ions-only plasma {D+, N7+}."""
+    from replaylib.native import run_native
+    code = """
+import itertools
+import numpy as np, scipy.constants as const
+from raysect.optical import World, Point3D, Vector3D, Spectrum
+from raysect.primitive import Box
+from cherab.core import Plasma, Species, Maxwellian
+from cherab.core.atomic import AtomicData, MaxwellianFreeFreeGauntFactor, deuterium, nitrogen, helium
+v0 = Vector3D(0, 0, 0)
+from cherab.core.model import Bremsstrahlung
+def sp(el, q, n): return Species(el, q, Maxwellian(n, 2000., v0, el.atomic_weight * const.atomic_mass))
+def emit(species):
+    w = World(); p = Plasma(parent=w); p.geometry = Box(Point3D(0, -0.5, -0.5), Point3D(1, 0.5, 0.5))
+    p.electron_distribution = Maxwellian(1e19, 2000., v0, const.m_e); p.b_field = v0
+    p.composition = species; p.atomic_data = AtomicData()
+    m = Bremsstrahlung(gaunt_factor=MaxwellianFreeFreeGauntFactor()); p.models = [m]
+    s = Spectrum(400., 800., 8); m.emission(Point3D(0.5, 0, 0), Vector3D(1, 0, 0), s); return s.samples.copy()
+parts = {"D0": (deuterium, 0, 3e18), "D1": (deuterium, 1, 8e18), "He0": (helium, 0, 5e17), "N7": (nitrogen, 7, 2e17)}
+want = emit([sp(*parts["D1"]), sp(*parts["N7"])])
+bad = []; n = 0
+for order in itertools.permutations(sorted(parts)):
+    got = emit([sp(*parts[k]) for k in order]); n += 1
+    if not np.allclose(got, want, rtol=1e-9, atol=0):
+        bad.append({"composition_order": list(order), "integrated_emission": float(got.sum() * 50.), "ions_only_plasma": float(want.sum() * 50.)})
+print(json.dumps({"cases": n, "bad": bad[:4], "nbad": len(bad)}))
+"""
+    out = run_native(ctx, code, timeout=300)
+    exp = 'same spectrum as the plasma that holds only the ions (neutrals add nothing; order of the composition is irrelevant)'
+    if out and out.get('nbad'):
+        return {'confirmed': True, 'input': out['bad'][0], 'observed': out, 'expected': exp}
+    return {'confirmed': False, 'input': None, 'observed': out, 'expected': exp}
+
+
 def native_replay(ctx, o):
     """Bremsstrahlung obligations: the real compiled model is evaluated at a sequence of points of a plasma whose impurity exists in one half
     only (density 0 or negative in the other half); every value is compared with a FRESH model instance evaluated at that point alone."""
+    if 'Bremsstrahlung._populate_cache' in o.name:
+        return brems_order_replay(ctx, o)
     if 'Bremsstrahlung.emission' not in o.name:
         return None
     from replaylib.native import run_native
